@@ -103,6 +103,12 @@ func (p *LeakyBucketPacer) Write(header *rtp.Header, payload []byte, attributes 
 		return 0, errLeakyBucketPacerPoolCastFailed
 	}
 
+	if len(payload) > len(*buf) {
+		// larger than the pooled buffers: give it a buffer of its own instead of
+		// truncating the copy (Run would then slice past the buffer and panic)
+		b := make([]byte, len(payload))
+		buf = &b
+	}
 	copy(*buf, payload)
 	hdr := header.Clone()
 
